@@ -682,21 +682,24 @@ func (g *sgen) doc() string {
 		g.hit("doctype:public")
 	case 2:
 		end := "]>"
-		if g.known && g.r.Bool() {
+		if g.r.Chance(1, 3) { // (K69 repaired: white space before the closing angle bracket)
 			end = g.r.Pick("] >", "]\n>")
-			g.hit("known:doctype-space-before-gt")
+			g.hit("doctype-space-before-gt")
 		}
 		sb.WriteString(`<!DOCTYPE svg [` + g.r.Pick("", "\n ") + `<!ENTITY c "red">` + g.r.Pick("", " ") + `<!ENTITY w '10.0'>` + g.r.Pick("", "<!-- c -->", "\n") + end)
 		entFill, entNum = "&c;", "&w;"
 		g.hit("doctype:internal-subset")
 	}
-	prefixRoot := g.known && g.r.Chance(1, 12)
+	prefixRoot := g.r.Chance(1, 12) // (K66 repaired: the svg: prefix on elements)
 	name := "svg"
 	var as []attrSpec
 	if prefixRoot {
 		name = "svg:svg"
 		as = append(as, attrSpec{"xmlns:svg", svgNS})
-		g.hit("known:svg-prefix")
+		if g.r.Chance(1, 3) {
+			as = append(as, attrSpec{"xmlns", svgNS})
+		}
+		g.hit("svg-prefix")
 	} else if g.r.Chance(6, 7) {
 		as = append(as, attrSpec{"xmlns", svgNS})
 	}
